@@ -329,6 +329,7 @@ Theorem nak_history_alias_inv ops : forall s p,
 Proof.
   assert (KIND : forall s p o, hs_p s = KNak p -> exists p', hs_p (fst (step s o)) = KNak p').
   { intros s p o HP. unfold step. destruct o as [|code r]; [exists p; exact HP|].
+    destruct (code =? 122); [exists p; exact HP|].
     destruct (code >=? 100).
     - unfold gen_step. rewrite HP. cbv zeta.
       repeat match goal with |- context [if ?c =? ?k then _ else _] => destruct (c =? k) end.
@@ -352,6 +353,7 @@ Proof.
     assert (I1 : nak_alias_inv s1 /\ exists p1, hs_p s1 = KNak p1).
     { replace s1 with (fst (step s o)) by (rewrite S1; reflexivity). split.
       - unfold step. destruct o as [|code r]; [exact I|].
+        destruct (code =? 122); [exact I|].
         destruct (code >=? 100); [apply (gen_step_alias_inv s p); assumption|].
         rewrite HP. apply nak_step_alias_inv; assumption.
       - apply (KIND s p o HP). }
